@@ -1,0 +1,26 @@
+//go:build verif
+
+package blake2b
+
+// Verification hook for property C06. Compiled only with the "verif" build tag.
+
+// VerifC06SkipNodes advances x by n whole output nodes exactly as if n*64 bytes had
+// been read and discarded, without computing them, so that positions far into a long
+// (or unknown-length) output can be reached. x must come from NewXOF, must be at a
+// node boundary and must have at least n*64 bytes left; otherwise it reports false
+// and leaves x unchanged.
+func VerifC06SkipNodes(x XOF, n uint64) bool {
+	p, ok := x.(*xof)
+	if !ok {
+		return false
+	}
+	if !p.readMode {
+		p.Read(nil) // computes the root hash and enters read mode; produces no output
+	}
+	if p.offset != 0 || n > p.remaining/Size || n > 1<<32 {
+		return false
+	}
+	p.remaining -= n * Size
+	p.nodeOffset += uint32(n)
+	return true
+}
